@@ -612,6 +612,17 @@ func BuildFromAliasedTable(query *Query, as string, expr sqlparser.SimpleTableEx
 	}
 }
 
+// WithBackwardNavigation returns a shallow copy of the current row that carries
+// the backward navigation marker so that the caller's row is never modified
+func WithBackwardNavigation(current Map, data Map) Map {
+	scoped := make(Map, len(current)+1)
+	for key, value := range current {
+		scoped[key] = value
+	}
+	scoped["<-"] = data
+	return scoped
+}
+
 func ProcessAlias(data []any, as string) []any {
 	if len(as) == 0 {
 		return data
@@ -794,8 +805,7 @@ func OrExpr(query *Query, current Map, expr *sqlparser.OrExpr, opts ...ExprOptio
 }
 
 func ComparisonExpr(query *Query, current Map, expr *sqlparser.ComparisonExpr, opts ...ExprOption) (bool, error) {
-	current["<-"] = query.data
-	defer delete(current, "<-")
+	current = WithBackwardNavigation(current, query.data)
 	left, err := Expr(query, current, expr.Left, opts...)
 	if err != nil {
 		return false, err
@@ -1324,11 +1334,7 @@ func SelectExpr(query *Query, current Map, expr *sqlparser.SelectExprs, opts ...
 
 func SubqueryExpr(query *Query, current Map, expr *sqlparser.Subquery, opts ...ExprOption) (any, error) {
 	// Backward Navigation
-	current["<-"] = query.data
-	query.postProcessors = append(query.postProcessors, func() error {
-		delete(current, "<-")
-		return nil
-	})
+	current = WithBackwardNavigation(current, query.data)
 	subQuery, err := Prepare(current, expr.Select, query.options)
 	if err != nil {
 		return nil, err
@@ -1371,11 +1377,7 @@ func CaseExpr(query *Query, current Map, expr *sqlparser.CaseExpr, opts ...ExprO
 // it finds the first value
 func ExistExpr(query *Query, current Map, expr *sqlparser.ExistsExpr, opts ...ExprOption) (bool, error) {
 	// Backward Navigation
-	current["<-"] = query.data
-	query.postProcessors = append(query.postProcessors, func() error {
-		delete(current, "<-")
-		return nil
-	})
+	current = WithBackwardNavigation(current, query.data)
 	q, err := Prepare(current, expr.Subquery.Select, query.options)
 	if err != nil {
 		return false, err
